@@ -201,25 +201,26 @@ func c09DiscardScenario(r *verifkit.Run, idx int, stats *c09AuditStats) {
 	root := fmt.Sprintf("d%dL", idx)
 	var phase atomic.Int32 // 0 building, 1 discard begun, 2 discard acknowledged
 	var mu sync.Mutex
+	var fsMu sync.RWMutex
 	var cuts []*c09DCut
 	cutRng := rand.New(rand.NewPCG(rng.Uint64(), rng.Uint64()))
 	take := func(event string) {
 		mu.Lock()
 		defer mu.Unlock()
 		acked := phase.Load() == 2
-		full := mem.CrashClone(vfs.CrashCloneCfg{UnsyncedDataPercent: 100, RNG: cutRng})
+		full := c09Clone(mem, &fsMu, vfs.CrashCloneCfg{UnsyncedDataPercent: 100, RNG: cutRng})
 		lossyPct := 0
 		if cutRng.IntN(3) == 0 {
 			lossyPct = 1 + cutRng.IntN(99)
 		}
-		lossy := mem.CrashClone(vfs.CrashCloneCfg{UnsyncedDataPercent: lossyPct, RNG: cutRng})
+		lossy := c09Clone(mem, &fsMu, vfs.CrashCloneCfg{UnsyncedDataPercent: lossyPct, RNG: cutRng})
 		begun := phase.Load() >= 1
 		ff, fb := c09FSSig(full, "db")
 		lf, lb := c09FSSig(lossy, "db")
 		cuts = append(cuts, &c09DCut{fs: full, pct: 100, ackedBefore: acked, begunAfter: begun, event: event},
 			&c09DCut{fs: lossy, pct: lossyPct, ackedBefore: acked, begunAfter: begun, event: event, lossy: ff != lf || fb != lb})
 	}
-	c09TheMux.register(root, errorfs.Wrap(mem, errorfs.InjectorFunc(func(op errorfs.Op) error {
+	c09TheMux.register(root, errorfs.Wrap(c09Guard{FS: mem, mu: &fsMu}, errorfs.InjectorFunc(func(op errorfs.Op) error {
 		if op.Kind.ReadOrWrite() == errorfs.OpIsWrite && phase.Load() == 1 {
 			take(c09OpNames[op.Kind] + ":" + c09FileClass(op.Path))
 		}
